@@ -481,7 +481,7 @@ def inject_failure(rng: random.Random, case: dict, how_many: int = 1) -> dict:
     failing = []
     for gi, ni in fns[:how_many]:
         n = c["program"][gi]["nodes"][ni]
-        n["body"] = {"b": "fail", "t": rng.choice(["E_", "E_", "Z_", "S_"]) + n["name"]}       # Z_: an exception object that is falsy; S_: one whose __str__ raises
+        n["body"] = {"b": "fail", "t": rng.choice(["E_", "E_", "Z_", "S_", "T_", "C_"]) + n["name"]}       # Z_: an exception object that is falsy; S_: one whose __str__ raises; T_: a builtin TypeError from a mis-called helper; C_: raised with an explicit cause
         failing.append(f"{gi}:{n['name']}")
     c["failing"] = failing
     return c
